@@ -634,15 +634,17 @@ Definition csd_old (s : loc) (N : option Z) : M loc :=
 Definition assign_rows (a : loc) : M unit :=
   i <- arr_info a ;; write (a_buf i) (CBuf (a_dt i) []).
 
-(* boxcar_filter (algorithms/filter.py, after 322933f): 1-d input is wrapped into a fresh 2-d array,
-   2-d input is copied; the rows of that array are then filtered in place *)
+(* boxcar_filter (algorithms/filter.py, after 322933f and af89e6b): 1-d input is wrapped into a
+   fresh 2-d array, 2-d input is copied, in both cases as a FLOATING POINT array
+   (np.result_type(dtype, float): float64 for the int / bool / float64 dtypes of the model); the
+   rows of that array are then filtered in place *)
 Definition boxcar (a : loc) : M loc :=
   i <- arr_info a ;;
   match a_shape i with
-  | [n] => w <- new_arr (a_dt i) (a_data i) [1%nat; n] KPlain ;; assign_rows w ;;;
+  | [n] => w <- new_arr (promote (a_dt i) F64) (a_data i) [1%nat; n] KPlain ;; assign_rows w ;;;
            reshape_view w [n]                                     (* time_series[0] *)
-  | [_; _] => w <- astype a (a_dt i) ;; assign_rows w ;;; ret w
-  | _ => w <- astype a (a_dt i) ;; raise EValue
+  | [_; _] => w <- astype a (promote (a_dt i) F64) ;; assign_rows w ;;; ret w
+  | _ => w <- astype a (promote (a_dt i) F64) ;; raise EValue
   end.
 
 (* before 322933f the 2-d input itself was filtered in place *)
